@@ -83,6 +83,14 @@ def materialise(rec, d, unique_names):
     paths = {0: ("", "")}
     for i, nd in enumerate(tree, start=1):
         name = nd["name"]
+        if unique_names == "samestem" and nd["kind"] == "file":
+            # every file of the run has the same stem, in its own directory (unit.c / unit.h alternate)
+            name = "unit.h" if (nd["cls"] == "clean" and i % 2 == 0) else "unit.c"
+            os.makedirs(os.path.join(d, f"d{i}"), exist_ok=True)
+            paths[i] = (os.path.join(f"d{i}", name), name)
+            with open(os.path.join(d, paths[i][0]), "w") as f:
+                f.write(content_for(nd["cls"], name, i))
+            continue
         if unique_names and nd["kind"] == "file":
             name = f"f{i}_{nd['cls']}.c"
         parent = paths[nd["parent"]][0]
@@ -150,7 +158,7 @@ def _work_cli(job):
     d = cli.scratch(f"j{job['idx']}")
     try:
         fam = job["fam"]
-        paths = materialise(rec, d, unique_names=(fam == "history"))
+        paths = materialise(rec, d, unique_names=(job.get("naming", True) if fam == "history" else False))
         av = argv_for(rec, paths)
         inline = rec["opts"].get("inline", "none")
         if inline != "none":
@@ -244,6 +252,13 @@ def run_c04(pid, tier):
     if exports is None:
         return R.finish()
     jobs = [dict(rec=rec, idx=i, fam="history", subprocess=(i % 40 == 0)) for i, rec in enumerate(exports)]
+    # the same histories with every file sharing one stem (unit.c / unit.h in separate directories), explicit paths only
+    nbase = len(exports)
+    for i in range(nbase):
+        rec = exports[i]
+        if rec["args"] and rec["args"][0]["node"] != 0 and len(rec["tree"]) >= 2:
+            exports.append(rec)
+            jobs.append(dict(rec=rec, idx=len(exports) - 1, fam="history", naming="samestem"))
     if tier == "thorough":     # longer sampled histories (beyond the exhaustive bound)
         r = rng("c04long")
         classes = ["clean", "notice", "err", "fatal", "fatalif"]
